@@ -35,8 +35,8 @@ LONG = {"MaxLen": 4,
         "data": {"gauss": [(1, 1, 1), (3, 2, 3), (-1, 6, 1)], "poisson": [(0, 1, 1), (2, 1, 1), (3, 1, 1)],
                  "mock": [(1, 1, 1), (3, 2, 3), (2, 6, 1)], "mse": [(1, 1, 1), (-2, 1, 1), (4, 1, 1)]},
         "fin": {"gauss": [-1, 3], "poisson": [-1, 6], "mock": [-1, 9], "mse": [-1, 3]}}
-TIERS = {"quick": {"configs": [("base", BASE)], "exceptions": ["ZeroDivisionError"], "cplx": [1 + 1j], "workers": 8},
-         "thorough": {"configs": [("wide", WIDE), ("long", LONG)], "exceptions": sorted(EXC), "cplx": [1 + 1j, 2j], "workers": 8}}
+TIERS = {"quick": {"configs": [("base", BASE)], "exceptions": ["ZeroDivisionError"], "cplx": [1 + 1j, 1 + 1e-15j], "workers": 8},
+         "thorough": {"configs": [("wide", WIDE), ("long", LONG)], "exceptions": sorted(EXC), "cplx": [1 + 1j, 2j, 1 + 1e-15j, 3 - 1e-17j], "workers": 8}}
 
 
 def _kind(v):
@@ -115,7 +115,7 @@ class Objects:
     CCLikelihood object carrying the same data (so that CCLikelihood.get_pred / negloglike are the code that runs)."""
 
     def __init__(self, s):
-        self.s, self.cache, self.n, self.cc0 = s, {}, 0, None
+        self.s, self.cache, self.n, self.cc0, self.pos = s, {}, 0, None, {}
 
     def get(self, cls, data, fresh=False):
         key = (cls, tuple((d["y"], d["sn"], d["sd"]) for d in data))
@@ -126,7 +126,7 @@ class Objects:
         self.n += 1
         dd = os.path.join(self.s, "c09_data_" + cls)
         os.makedirs(os.path.join(dd, "mock"), exist_ok=True)
-        x = np.arange(1, len(data) + 1, dtype=float)
+        x = np.arange(len(data), 0, -1, dtype=float)        # not sorted: the likelihood is a sum over data points in any order
         y = np.array([float(d["y"]) for d in data])
         sg = np.array([d["sn"] / d["sd"] for d in data])
         with warnings.catch_warnings():
@@ -139,9 +139,15 @@ class Objects:
                 name = "d_%d.txt" % self.n
                 np.savetxt(os.path.join(dd, name), np.transpose([x, y] if cls == "poisson" else [x, y, sg]))
                 obj = targets.make_like(cls, name, "c09", dd, "core_maths")
-        if np.atleast_1d(obj.yvar).tolist() != y.tolist():
+        # the model function is given by its value AT EACH DATA POINT: the closure looks the abscissa up (file value, or 1 + z for the
+        # cosmic-chronometer classes), so an object that keeps its data in another order than the file is still asked the right thing
+        xv = np.atleast_1d(np.asarray(obj.xvar, dtype=float))
+        shift = next((t for t in (0.0, 1.0) if sorted(xv.tolist()) == sorted((x + t).tolist())), None)
+        if shift is None or sorted(np.atleast_1d(obj.yvar).tolist()) != sorted(y.tolist()):
             raise RuntimeError("binding: the %s object does not hold the data of the case" % cls)
+        pos = {float(v + shift): i for i, v in enumerate(x)}
         out = [("", obj)]
+        self.pos[id(obj)] = pos
         if cls == "mock":
             if self.cc0 is None:
                 with warnings.catch_warnings():
@@ -149,23 +155,32 @@ class Objects:
                     self.cc0 = L.CCLikelihood()      # the shipped cosmic-chronometer data
             cc = copy.copy(self.cc0)
             cc.xvar, cc.yvar, cc.yerr, cc.inv_cov = obj.xvar, obj.yvar, obj.yerr, obj.inv_cov
+            self.pos[id(cc)] = pos
             out.append(("cc:", cc))
         self.cache[key] = out
         return out
 
 
-def call(np, obj, how, arg, npar):
-    """one call of the real negloglike with a model function given by its values"""
+def call(np, obj, how, arg, npar, pos=None):
+    """one call of the real negloglike with a model function given by its values at the data points"""
+    def at(x):
+        if not hasattr(arg, "copy") or np.ndim(arg) == 0 or not pos:
+            return arg.copy() if hasattr(arg, "copy") else arg
+        try:
+            return arg[[pos[float(v)] for v in np.atleast_1d(x)]]
+        except KeyError:
+            return arg.copy()
     if how == "raise":
         def eq_numpy(x, *a):
             raise EXC[arg]("model function")
     elif how == "flags":
         def eq_numpy(x, *a):
-            big = np.full(np.shape(arg), 800.0)
-            return arg + np.exp(-big) * np.exp(-big) + 1.0 / np.exp(big)       # + 0 (underflow) + 1/inf (overflow)
+            v = at(x)
+            big = np.full(np.shape(v), 800.0)
+            return v + np.exp(-big) * np.exp(-big) + 1.0 / np.exp(big)       # + 0 (underflow) + 1/inf (overflow)
     else:
         def eq_numpy(x, *a):
-            return arg.copy() if hasattr(arg, "copy") else arg
+            return at(x)
     a = [0.5, -1.0, 2.0][:npar]
     with warnings.catch_warnings(), np.errstate(all="ignore"):
         warnings.simplefilter("ignore")
@@ -241,9 +256,17 @@ def run(tier, replay=None):
     obs, meta = [], []
     for n, c in enumerate(cases):
         exp = expected(c["lin"])
-        for w, (pre, obj) in enumerate(objs.get(c["cls"], c["data"])):
+        try:
+            olist = objs.get(c["cls"], c["data"])
+        except RuntimeError:
+            raise
+        except Exception as ex:       # the class cannot even be constructed on this data vector
+            d, p = describe(c)
+            r.violation("construct:%s:%s" % (c["cls"], type(ex).__name__), "%s likelihood could not be constructed on data %s: %r" % (c["cls"], d, ex), {"case": c})
+            continue
+        for w, (pre, obj) in enumerate(olist):
             for name, how, arg in realisations(np, c, t):
-                out = call(np, obj, how, arg, n % 4)
+                out = call(np, obj, how, arg, n % 4, objs.pos.get(id(obj)))
                 o, m = project(np, out, exp)
                 obs.append({"id": len(obs), "cls": c["cls"], "data": c["data"], "pred": c["pred"], "exc": c["exc"],
                             "req": c["req"], "lin": c["lin"], "obs": o, "matches": m})
@@ -267,7 +290,8 @@ def run(tier, replay=None):
             n, name, how, arg, out, exp, w = meta[i]
             c = cases[n]
             # confirm on a freshly constructed object before reporting
-            again = project(np, call(np, objs.get(c["cls"], c["data"], fresh=True)[w][1], how, arg, n % 4), exp)
+            fo = objs.get(c["cls"], c["data"], fresh=True)[w][1]
+            again = project(np, call(np, fo, how, arg, n % 4, objs.pos.get(id(fo))), exp)
             if again != (obs[i]["obs"], obs[i]["matches"]):
                 raise RuntimeError("observation not reproducible on a fresh object: %s then %s for %s" % (obs[i]["obs"], again, c))
             d, p = describe(c)
